@@ -202,8 +202,16 @@ class Converter:
         kind = t.decl().kind()
         ch = t.children()
         if kind == z3.Z3_OP_ADD:
+            # flatten nested sums iteratively (left-nested chains from accumulation loops)
+            leaves, st = [], list(reversed(ch))
+            while st:
+                x = st.pop()
+                if z3.is_app(x) and x.decl().kind() == z3.Z3_OP_ADD and x.get_id() not in self.memo:
+                    st.extend(reversed(x.children()))
+                else:
+                    leaves.append(x)
             r = Poly()
-            for c in ch:
+            for c in leaves:
                 r = r + self.to_poly(c)
             return r
         if kind == z3.Z3_OP_SUB:
@@ -254,17 +262,21 @@ class Converter:
     def mono_term(self, m, c):
         fs, ds, i = [], [], 0
         inv_of = {j: i2 for i2, j in self.inverse.items()}
+        fl, dl = [], []
         while m:
             e = m & MASK
             if e:
                 if i in inv_of:
-                    a = self.atoms[self.names[inv_of[i]]]
-                    ds.extend([a] * e)
+                    dl.append((self.names[inv_of[i]], e))
                 else:
-                    a = self.atoms[self.names[i]]
-                    fs.extend([a] * e)
+                    fl.append((self.names[i], e))
             m >>= BITS
             i += 1
+        # canonical factor order (by name), independent of this converter's variable indices
+        for n, e in sorted(fl):
+            fs.extend([self.atoms[n]] * e)
+        for n, e in sorted(dl):
+            ds.extend([self.atoms[n]] * e)
         if not fs:
             term = sc.q_of(c)
         else:
